@@ -503,15 +503,39 @@ fn exec(sh: &Shared, op: &Op, log: &mut ThreadLog, tid: usize) {
 		}
 		Op::Fill(i) => {
 			if let Some(f) = &sh.filler {
-				let r = (|| -> Result<(), grin_store::Error> {
+				// Session 9 (lead's report: `MDB_MAP_FULL` from this op in one of two concurrent checks under
+				// heavy CPU load).  Analysis: `Store::batch()` decides about the resize BEFORE and OUTSIDE the
+				// LMDB writer mutex (`maybe_resize(); Batch::new()`: check, then `env.write_txn()`), and a
+				// thread whose `start_resize_checking()` CAS fails skips the check altogether.  Several
+				// writers that are not serialised by anything else can all pass the check just below the
+				// 90 % threshold (test-mode map 1-3 MiB: a margin of 100-300 KiB), queue on the writer mutex
+				// and write 48 KiB + copy-on-write overhead each: the last ones get MDB_MAP_FULL.  In grin
+				// every committing batch on the chain's environment is taken under txhashset.write()
+				// (Props/C17 `table_commits_under_ts_write`; the one exception writes 40 bytes), so the
+				// chain's writers ARE serialised and each `batch()` sees all earlier commits; the unserialised
+				// second writer was a construction of this harness, not of grin (the peer store is another
+				// environment).  The filler now does what every writer of the table does - it write-locks
+				// `txhashset` (through the Arc) around its batch - and a MDB_MAP_FULL answer (an Err, neither a
+				// deadlock nor a panic nor uncommitted state: outside C17; resize liveness is C18's) is counted
+				// and retried once: the retry's `batch()` sees the map above the threshold and must resize.
+				let ts = c.txhashset();
+				let _serial = ts.write();
+				let put = || -> Result<(), grin_store::Error> {
 					let mut b = f.batch()?;
 					b.put(None, format!("fill{:03}-{:05}", tid, i).as_bytes(), &vec![*i as u8; 48 * 1024])?;
 					b.commit()
-				})();
+				};
+				let mut r = put();
+				if let Err(e) = &r {
+					if format!("{:?}", e).contains("MDB_MAP_FULL") {
+						note(log, "fill_db:map_full_retried".into());
+						r = put();
+					}
+				}
 				match r {
 					Ok(()) => note(log, "fill_db:ok".into()),
 					Err(e) => {
-						log.fails.push(format!("a 48 KiB batch of the second store handle on the chain's environment failed (thread {}): {:?}", tid, e));
+						log.fails.push(format!("a 48 KiB batch of the second store handle on the chain's environment failed, serialised under txhashset.write() and retried after MDB_MAP_FULL (thread {}): {:?}", tid, e));
 						note(log, "fill_db:err".into());
 					}
 				}
